@@ -230,13 +230,18 @@ func (n *networkTopology) replicaMap(tokenRing *tokenRing) tokenRingReplicas {
 		}
 
 		replicas := make([]*HostInfo, 0, totalRF)
+		// hosts already placed or set aside for this token; a host owning several
+		// tokens (vnodes) must be considered only once
+		visited := make(map[*HostInfo]struct{})
 		for j := 0; j < len(tokens) && (len(replicas) < totalRF && !n.haveRF(replicasInDC)); j++ {
-			// TODO: ensure we dont add the same host twice
 			p := i + j
 			if p >= len(tokens) {
 				p -= len(tokens)
 			}
 			h := tokens[p].host
+			if _, ok := visited[h]; ok {
+				continue
+			}
 
 			dc := h.DataCenter()
 			rack := h.Rack()
@@ -256,6 +261,8 @@ func (n *networkTopology) replicaMap(tokenRing *tokenRing) tokenRingReplicas {
 				// dont know about this rack
 				continue
 			}
+
+			visited[h] = struct{}{}
 
 			racks := seenDCRacks[dc]
 			if _, ok := racks[rack]; ok && len(racks) == len(dcRacks[dc]) {
